@@ -30,7 +30,7 @@ void h_recover_api(void) {
         __CPROVER_assert(sval(&g_sr_r0) == rv && sval(&g_sr_s0) == sv && g_sr_recid0 == sig.data[64], "C01 recover: exactly the loaded (r, s, recid) reach the core");
         __CPROVER_assert(sval(&g_sr_m0) == (mv >= n ? mv - n : mv), "C01 recover: message is be256(msghash32) mod n");
         if (ret == 0) __CPROVER_assert(pk.data[k] == 0, "C01 recover: failure => public key object all zero");
-        if (ret == 1) __CPROVER_assert(le256(&pk.data[0]) == fmodp(&g_sr_q0.x) && le256(&pk.data[32]) == fmodp(&g_sr_q0.y), "C01 recover: public key object = save(recovered point)");
+        if (ret == 1) __CPROVER_assert(le256(&pk.data[0]) == fmodp1(&g_sr_q0.x) && le256(&pk.data[32]) == fmodp1(&g_sr_q0.y), "C01 recover: public key object = save(recovered point)");
         if (ret == 1 && mv >= n && sig.data[64] == 3) REACH("recover success msg >= n recid 3");
         if (ret == 0) REACH("recover failure");
     }
